@@ -738,3 +738,27 @@ static uint8_t* ctl_bindup_bad(void* arena, ctl_brd_t* r, int32_t* len) {
 }
 void borrowed_good(void* arena, ctl_brd_t* r, ctl_meta_t* m) { m->min_value = ctl_bindup_good(arena, r, &m->min_len); }
 void borrowed_bad(void* arena, ctl_brd_t* r, ctl_meta_t* m) { m->min_value = ctl_bindup_bad(arena, r, &m->min_len); }
+
+/* ---- R46 growth covers the request (rules/growth.py) */
+typedef struct { uint8_t* buf; size_t cap; } ctl_grow_t;
+uint8_t* growth_bad(ctl_grow_t* g, size_t need) {
+    if (need > g->cap) {
+        size_t new_cap = g->cap ? g->cap * 2 : need;       /* a request above twice the capacity gets too little */
+        uint8_t* p = realloc(g->buf, new_cap);
+        if (!p) return 0;
+        g->buf = p;
+        g->cap = new_cap;
+    }
+    return g->buf;
+}
+uint8_t* growth_good(ctl_grow_t* g, size_t need) {
+    if (need > g->cap) {
+        size_t new_cap = g->cap ? g->cap * 2 : 64;
+        while (new_cap < need) new_cap *= 2;
+        uint8_t* p = realloc(g->buf, new_cap);
+        if (!p) return 0;
+        g->buf = p;
+        g->cap = new_cap;
+    }
+    return g->buf;
+}
